@@ -101,5 +101,7 @@ example : (tlrMaybeFinish { (default : St) with tlrActive := true, tlrEndTSN := 
 example : (tlrMaybeFinish { (default : St) with tlrActive := true, tlrEndTSN := 13, cumAck := 13 } true).tlrActive = false := by decide
 example : 4 * (admitted true (9600, false) [1200, 1200, 1200]).sum ≤ 9600 := by decide
 example : admitted true (0, false) [1500, 100] = [1500] := by decide
+-- C10_tlr_budget_bound_mtu: 8 units, MTU 1200, requests of at most one MTU: two MTUs pass
+example : 4 * (admitted true (8 * 1200, false) [1200, 1200, 600]).sum ≤ max 8 4 * 1200 := by decide
 
 end C10
